@@ -4,13 +4,22 @@
 # against it (VERIF_REPO), removes the copy.  Evidence/replays go to a scratch
 # directory, never to /verif/evidence.
 set -u
-PATCH="$1"; PROP="$2"; TIER="${3:-quick}"
+PATCH="$(readlink -f "$1")"; PROP="$2"; TIER="${3:-quick}"
 NAME=$(basename "$(dirname "$PATCH")")
 W=/dev/shm/eyecite-mut-$$-$NAME
 rm -rf "$W"; mkdir -p "$W/out"
 git -C /repo archive ${REPO_REV:-HEAD} | tar -x -C "$W" --one-top-level=repo
 if ! git -C "$W/repo" apply --unsafe-paths "$PATCH" 2>/dev/null; then
-  (cd "$W/repo" && patch -p1 -s < "$PATCH") || { echo "PATCH-FAILED $PATCH"; rm -rf "$W"; exit 3; }
+  if ! (cd "$W/repo" && patch -p1 -s --dry-run < "$PATCH" >/dev/null 2>&1); then
+    # written against an older base (meta.json "base") that a later fix: commit
+    # rewrote: check it against that base instead (S66, S69)
+    BASE=$(python3 -c "import json,sys; print(json.load(open(sys.argv[1])).get('base',''))" "$(dirname "$PATCH")/meta.json" 2>/dev/null)
+    if [ -n "$BASE" ] && [ -z "${REPO_REV:-}" ]; then
+      rm -rf "$W/repo"; git -C /repo archive "$BASE" | tar -x -C "$W" --one-top-level=repo
+      echo "(patch does not apply to HEAD; using its base $BASE)"
+    fi
+  fi
+  git -C "$W/repo" apply --unsafe-paths "$PATCH" 2>/dev/null || (cd "$W/repo" && patch -p1 -s < "$PATCH") || { echo "PATCH-FAILED $PATCH"; rm -rf "$W"; exit 3; }
 fi
 VERIF_MAX_VIOLATIONS="${VERIF_MAX_VIOLATIONS:-2}" VERIF_REPO="$W/repo" VERIF_OUT="$W/out" timeout 3000 /venv/bin/python "$(cd "$(dirname "$0")/.." && pwd)/vcheck.py" "$PROP" --tier "$TIER" > "$W/out/stdout" 2> "$W/out/stderr"
 RC=$?
